@@ -16,6 +16,7 @@ Output per case: {'trace': 'R:… L:… | end=… pend=…'  (same text as the L
                   'bundles': [[secs_rel, id], …]  decoded from the score / the datagrams,
                   'draw_values': …}
 """
+import hashlib
 import logging
 import random
 import struct
@@ -29,6 +30,8 @@ _env = {}
 
 
 def fr(x):
+    if isinstance(x, float) and (x != x or x in (float('inf'), float('-inf'))):
+        return str(x)
     f = Fraction(x)
     return str(f.numerator) if f.denominator == 1 else f'{f.numerator}/{f.denominator}'
 
@@ -103,6 +106,7 @@ class Prog:
 
         def body(inval):
             me, clock = inval
+            last = 0.0
             resumed(0, clock)
             for k, a in enumerate(script):
                 op = a[0]
@@ -112,10 +116,13 @@ class Prog:
                 elif op == 'hang':
                     me, clock = yield 'hang'
                     resumed(k + 1, clock)
+                elif op == 'yinf':
+                    me, clock = yield float('inf')
+                    resumed(k + 1, clock)
                 elif op == 'log':
                     run.events.append(f'L:{i}:{fr(clock.beats)}:{fr(clock.seconds - run.start)}')
                 elif op == 'send':
-                    run.addr.send_bundle(LAT, ['/c10', a[1]])
+                    run.addr.send_bundle(LAT, ['/c10', float(last), a[1]])
                     run.events.append(f'B:{i}:{a[1]}:{fr(clock.seconds - run.start)}')
                 elif op == 'spawn':
                     r = run.R[a[1]] or run.create(a[1])
@@ -147,7 +154,8 @@ class Prog:
                     main.current_tt.rand_seed = a[1]
                     run.add_stream(a[1], a[1])
                 elif op == 'draw':
-                    g, n = run.gen_of(bi.rand(1.0))
+                    last = bi.rand(1.0)
+                    g, n = run.gen_of(last)
                     run.events.append(f'D:{i}:{g}:{n}')
                 else:
                     raise AssertionError(a)
@@ -194,9 +202,10 @@ def nrt_case(case):
     if score is not None:
         for b in score.list:
             if len(b) == 2 and b[1][0] == '/c10':
-                bundles.append([fr(b[0] - LAT), b[1][1]])
+                bundles.append([fr(b[0] - LAT), b[1][2]])
     times = [fr(t) for _, t in p.moves]
-    return {'trace': ' '.join(p.events) + f' | end={fr(end)} pend={pend}', 'bundles': bundles,
+    raw = hashlib.sha1(bytes(score.raw)).hexdigest() if score is not None else None
+    return {'raw_sha1': raw, 'trace': ' '.join(p.events) + f' | end={fr(end)} pend={pend}', 'bundles': bundles,
             'task_times': times, 'elapsed': fr(main.elapsed_time()), 'error': err}
 
 
